@@ -321,6 +321,7 @@ async fn run_op(c: &mut ACase, idx: usize, toks: &[&str]) -> String {
         ["filename", p] => { let p = loc!(p); format!("ok:str:{}", hex(p.filename().as_bytes())) }
         ["extension", p] => { let p = loc!(p); match p.extension() { None => "ok:optstr:none".to_string(), Some(e) => format!("ok:optstr:{}", hex(e.as_bytes())) } }
         ["isroot", p] => { let p = loc!(p); format!("ok:{}", bool_s(&p.is_root())) }
+        ["eq", p, q] => { let p = loc!(p); let q = loc!(q); format!("ok:{}", bool_s(&(p == q))) }
         ["exists", p] => { let p = loc!(p); res_s(&p.exists().await, bool_s) }
         ["metadata", p] => { let p = loc!(p); res_s(&p.metadata().await, |m| meta_s(m, &set)) }
         ["isfile", p] => { let p = loc!(p); res_s(&p.is_file().await, bool_s) }
@@ -492,6 +493,7 @@ fn aconfig_line(cur: &mut ACase, toks: &[&str]) -> bool {
             cur.tmpdirs.push(d);
         }
         ["fs", "base", i] => { let b = cur.bases[i.parse::<usize>().unwrap()].take().unwrap(); let r = cur.wrap(b); cur.roots.push(r); }
+        ["fs", "unit", i] => { let _ = cur.bases[i.parse::<usize>().unwrap()].take(); cur.roots.push(AsyncVfsPath::new(AsyncUnitFS)); }
         ["fs", "alt", j, p] => { let root = cur.path_of(j.parse().unwrap(), p); let r = cur.wrap(Box::new(AsyncAltrootFS::new(root))); cur.roots.push(r); }
         ["fs", "ovl", _n, rest @ ..] => {
             let mut layers = vec![];
@@ -765,5 +767,41 @@ async fn run_file(text: String, pending: bool) {
             }
         }
         cur.cleanup();
+    }
+}
+
+
+/// the async twin of wrappers::UnitFS: a zero-sized filesystem that refuses every call
+#[derive(Debug)]
+pub struct AsyncUnitFS;
+
+#[async_trait]
+impl AsyncFileSystem for AsyncUnitFS {
+    async fn read_dir(&self, _path: &str) -> VfsResult<Box<dyn Unpin + Stream<Item = String> + Send>> {
+        Err(vfs::error::VfsErrorKind::NotSupported.into())
+    }
+    async fn create_dir(&self, _path: &str) -> VfsResult<()> {
+        Err(vfs::error::VfsErrorKind::NotSupported.into())
+    }
+    async fn open_file(&self, _path: &str) -> VfsResult<Box<dyn SeekAndRead + Send + Unpin>> {
+        Err(vfs::error::VfsErrorKind::NotSupported.into())
+    }
+    async fn create_file(&self, _path: &str) -> VfsResult<Box<dyn Write + Send + Unpin>> {
+        Err(vfs::error::VfsErrorKind::NotSupported.into())
+    }
+    async fn append_file(&self, _path: &str) -> VfsResult<Box<dyn Write + Send + Unpin>> {
+        Err(vfs::error::VfsErrorKind::NotSupported.into())
+    }
+    async fn metadata(&self, _path: &str) -> VfsResult<VfsMetadata> {
+        Err(vfs::error::VfsErrorKind::NotSupported.into())
+    }
+    async fn exists(&self, _path: &str) -> VfsResult<bool> {
+        Err(vfs::error::VfsErrorKind::NotSupported.into())
+    }
+    async fn remove_file(&self, _path: &str) -> VfsResult<()> {
+        Err(vfs::error::VfsErrorKind::NotSupported.into())
+    }
+    async fn remove_dir(&self, _path: &str) -> VfsResult<()> {
+        Err(vfs::error::VfsErrorKind::NotSupported.into())
     }
 }
